@@ -63,3 +63,28 @@ Theorem C03_conversation : forall (ps : list pdu) (segs : list bytes),
   /\ Forall2 (fun f p => decode_as (type_of p) f = Ok p) (map encode ps) ps.
 Proof. exact conversation_any_segmentation. Qed.
 Print Assumptions C03_conversation.
+
+(* ---- the same on the transport of Model/ProviderW.v: the peer may reset the connection right behind its
+   last bytes (SegReset) and writes may be refused from then on.  Whatever the pattern of refused writes, the
+   bytes delivered before the reset are still framed: the end of the connection never overtakes the data. *)
+From PND Require Import Model.ProviderW Proofs.StreamWProofs.
+
+Theorem C03_provider_conserves_w : forall (strict : bool) (env : denv) (ops : list wop) (s : pstate),
+  concat (run_framesw strict env s ops) ++ stream (fold_left (iterw strict env) ops s)
+  = stream s ++ run_deliveredw strict env s ops.
+Proof. exact stream_conservedw. Qed.
+Print Assumptions C03_provider_conserves_w.
+
+Theorem C03_provider_frames_w : forall (strict : bool) (env : denv) (ops : list wop) (s : pstate),
+  exists tl, fst (frames (stream s ++ run_deliveredw strict env s ops)) = run_framesw strict env s ops ++ tl.
+Proof. exact frames_of_contentw. Qed.
+Print Assumptions C03_provider_frames_w.
+
+(* two deliveries of the same content (whole with the reset right behind it / per PDU and then the reset)
+   that both consumed it recognised the same PDUs *)
+Theorem C03_same_content_same_frames_w : forall strict env (ops1 ops2 : list wop) (s : pstate),
+  run_deliveredw strict env s ops1 = run_deliveredw strict env s ops2 ->
+  stream (fold_left (iterw strict env) ops1 s) = stream (fold_left (iterw strict env) ops2 s) ->
+  concat (run_framesw strict env s ops1) = concat (run_framesw strict env s ops2).
+Proof. exact same_content_same_framesw. Qed.
+Print Assumptions C03_same_content_same_frames_w.
